@@ -281,7 +281,7 @@ def build_harness(name, sources, flavour, with_lib=True, extra_cflags=(), extra_
     fl = FLAVOURS[flavour]
     cd = _cache_dir()
     srcs = [s if os.path.isabs(s) else os.path.join(VERIF, "harness", s) for s in sources]
-    hdrs = sorted(glob.glob(os.path.join(VERIF, "harness", "*.hpp"))) + \
+    hdrs = [os.path.join(VERIF, "harness", "vh.hpp")] + \
         [d if os.path.isabs(d) else os.path.join(VERIF, "harness", d) for d in deps]
     key = _files_hash(srcs + hdrs, " ".join(fl["cflags"]) + " ".join(extra_cflags) + " ".join(extra_ldflags) + str(with_lib))
     exe = os.path.join(cd, "%s-%s-%s" % (name, flavour, key))
